@@ -141,6 +141,11 @@ let dispatch name =
   | "state_exec" ->
     let init = rqlist () in let p = rprog () in
     let (vals, ok) = Exec.q_state_exec p init in pqlist vals; pbool ok
+  | "basis_raise_order" -> let tol = rq () in let b = rbasis () in let a = rnat () in pbasis (Exec.q_basis_raise_order tol b a)
+  | "basis_lower_order" -> let tol = rq () in let b = rbasis () in let a = rnat () in pres pbasis (Exec.q_basis_lower_order tol b a)
+  | "obj_raise_order" -> let tol = rq () in let o = robj () in let rs = rnatlist () in pres pobj (Exec.q_obj_raise_order tol o rs)
+  | "obj_lower_order" -> let tol = rq () in let o = robj () in let rs = rnatlist () in pres pobj (Exec.q_obj_lower_order tol o rs)
+  | "solve" -> let a = rlist rqlist in let b = rlist rqlist in pres (plist pqlist) (Exec.q_solve a b)
   | _ -> out ("UNKNOWN " ^ name)
 
 let () =
